@@ -460,7 +460,34 @@ def shared_kind(repo: Repo, fi: FunctionInfo, du: DefUse, e: ast.AST, at: ast.AS
         kinds.discard(None)
         if kinds:
             return "dict" if kinds == {"dict"} else "array"
+    if isinstance(base, ast.Attribute) and isinstance(base.value, ast.Name) and base.value.id == "self" and fi.cls:
+        # an attribute that some method of the class binds to a shared object (self.x = memoised(...)) is shared wherever it is read
+        return _shared_attrs(repo, fi, shared).get(base.attr)
     return None
+
+
+def _shared_attrs(repo: Repo, fi: FunctionInfo, shared: Dict[str, str]) -> Dict[str, str]:
+    clsq = fi.qualname.rsplit(".", 1)[0]
+    cache = repo.__dict__.setdefault("_shared_attr_cache", {})
+    key = (clsq, tuple(sorted(shared.items())))
+    if key in cache:
+        return cache[key]
+    cache[key] = {}          # recursion guard
+    out: Dict[str, str] = {}
+    for q, m in repo.functions.items():
+        if not q.startswith(clsq + ".") or isinstance(m.node, ast.Lambda):
+            continue
+        dum = None
+        for st in walk_function(m.node):
+            if isinstance(st, ast.Assign):
+                for t in st.targets:
+                    if isinstance(t, ast.Attribute) and isinstance(t.value, ast.Name) and t.value.id == "self":
+                        dum = dum or DefUse(m.node)
+                        k = shared_kind(repo, m, dum, st.value, st, shared, 1)
+                        if k:
+                            out[t.attr] = k
+    cache[key] = out
+    return out
 
 
 def inplace_mutations(fn_node: ast.AST) -> List[Tuple[ast.stmt, ast.AST]]:
